@@ -14,7 +14,7 @@ use std::{borrow::Cow, char, collections::VecDeque, error::Error, fmt};
 use crate::{
     char_traits::{
         as_hex, is_anchor_char, is_blank_or_breakz, is_break, is_breakz, is_flow, is_hex,
-        is_tag_char, is_uri_char,
+        is_tag_char, is_uri_char, is_z,
     },
     input::{Input, SkipTabs},
 };
@@ -2489,10 +2489,12 @@ impl<'input, T: Input> Scanner<'input, T> {
             }
             self.no_block_collection_at = Some(self.mark.index);
         }
-        if is_break(self.input.look_ch())
-            || !(separation.found_tabs() || separation.has_valid_yaml_ws())
+        let next = self.input.look_ch();
+        if is_break(next)
+            || !(separation.found_tabs() || separation.has_valid_yaml_ws() || is_z(next))
         {
-            // The key is on the following lines, or there is none.
+            // The key is on the following lines, or there is none (`?` may also be the last
+            // character of the input).
             self.skip_yaml_whitespace()?;
         }
         self.tokens
@@ -2543,9 +2545,7 @@ impl<'input, T: Input> Scanner<'input, T> {
 
         // The key of this value starts right after a separation made of tabs only: it would start
         // a block mapping there (`? a\n:\tkey: v`).
-        if sk.possible
-            && self.flow_level == 0
-            && self.no_block_collection_at == Some(sk.mark.index)
+        if sk.possible && self.flow_level == 0 && self.no_block_collection_at == Some(sk.mark.index)
         {
             return Err(ScanError::new_str(
                 sk.mark,
